@@ -215,7 +215,20 @@ impl crate::common::frames::FrameWriter for NullFrames {
 
 async fn h11c_handshake_case(out: &mut Out, r: &mut Rng) {
     let hosts = ["example.com:80", "a:1", "[::1]:80", "1.2.3.4:65535", ":", "x", "a:b", "a:99999", "", "[::1]", "a:-1", "\u{e9}:80"];
-    let mut req = format!("{} {} HTTP/1.1\r\n", r.pick(&["CONNECT", "connect", "GET", ""]), r.pick(&hosts));
+    // authority strings over the delimiter alphabet of host:port / [v6]:port syntax (every string up to length 5 is reachable)
+    let delim_host = {
+        let alphabet = ["[", "]", ":", "a", "1", "\u{e9}", "%", ".", "-", "::", "[::1]", "\u{6f22}"];
+        let mut h = String::new();
+        for _ in 0..r.below(6) {
+            h.push_str(*r.pick(&alphabet));
+        }
+        if r.chance(1, 2) {
+            h.push_str(*r.pick(&[":80", ":0", ":65536", ":", ":x"]));
+        }
+        h
+    };
+    let host: String = if r.chance(1, 2) { delim_host } else { r.pick(&hosts).to_string() };
+    let mut req = format!("{} {} HTTP/1.1\r\n", r.pick(&["CONNECT", "connect", "GET", ""]), host);
     for _ in 0..r.below(4) {
         req += *r.pick(&["Proxy-Protocol: udp\r\n", "Proxy-Protocol: tcp\r\n", "Proxy-Protocol: x\r\n", "Proxy-Channel: inline\r\n", "Proxy-Channel: quic-datagrams\r\n", "Proxy-Channel: \r\n", "Udp-Bind-Source: 1.2.3.4:5\r\n", "Udp-Bind-Source: x\r\n", "Host: a\r\n", "Broken\r\n"]);
     }
